@@ -711,7 +711,11 @@ def c13_sdest(inp):
                 if method == "per" and abs(nxseg * pov - round(nxseg * pov)) > 1e-12:
                     continue
                 for fs in (1.0, 37.5):
-                    Yall, Yref = rng.randn(3, 4 * nxseg + 7), rng.randn(2, 4 * nxseg + 7)
+                    # row counts: more data rows than references, as many (distinct records), a single pair, the data rows in another order
+                    nall, nref_ = [(3, 2), (3, 3), (1, 1), (2, 4)][n_ok % 4]
+                    Yall, Yref = rng.randn(nall, 4 * nxseg + 7), rng.randn(nref_, 4 * nxseg + 7)
+                    if n_ok % 8 == 1:
+                        Yref = Yall[::-1].copy()
                     try:
                         f, S_ = fdd.SD_est(Yall.copy(), Yref.copy(), 1 / fs, nxseg, method=method, pov=pov)
                     except Exception as e:      # noqa: BLE001
@@ -1568,6 +1572,9 @@ def c19_geo(inp):
             "coordinates with 2 columns": lambda d: d.update({"sensors coordinates": coord.iloc[:, :2].copy(), "sensors directions": dirs.iloc[:, :2].copy()}),
             "directions of another shape": lambda d: d.update({"sensors directions": dirs.iloc[:-1].copy()}) if len(idx) > 1 else d.pop("sensors directions"),
             "directions with another index": lambda d: d.update({"sensors directions": dirs.rename(index={idx[0]: "zz"})}),
+            # same labels, another row order: the two indices differ as sequences (a function that pairs the tables row by row must
+            # refuse them; one that aligns by label would have to return the directions of the right sensors - checked below)
+            "directions rows in another order than the coordinates": lambda d: d.update({"sensors directions": dirs.iloc[np.roll(np.arange(len(idx)), 1)].copy()}) if len(idx) > 1 else d.pop("sensors directions"),
             "BG lines with 3 columns": lambda d: d.update({"BG lines": bgs.copy()}),
             "BG nodes with 2 columns": lambda d: d.update({"BG nodes": bgl.copy().astype(float)}),
             "BG surfaces with 2 columns": lambda d: d.update({"BG surfaces": bgl.copy()}),
@@ -1758,7 +1765,9 @@ def c01_exact(inp):
         mu = np.exp(np.concatenate([lam, lam.conj()]) / fs)
         V = np.concatenate([phi, phi.conj()], axis=1)
         Obs_t = np.vstack([V * mu ** i for i in range(br + 1)])
-        Ctr = np.vstack([(rng.randn(2 * m) + 1j * rng.randn(2 * m))[None, :] * 0 + (mu ** j)[None, :] for j in range((br + 1) * nch)]).T
+        # rectangular on every other trial: fewer reference channels (block columns of width r < Nch) than channels
+        r_ref = nch if trial % 2 == 0 else int(rng.randint(1, nch))
+        Ctr = np.vstack([(rng.randn(2 * m) + 1j * rng.randn(2 * m))[None, :] * 0 + (mu ** j)[None, :] for j in range((br + 1) * r_ref)]).T
         g = rng.randn(m) + 1j * rng.randn(m)
         Ctr = Ctr * np.concatenate([g, g.conj()])[:, None]
         H = np.real(Obs_t @ Ctr)
@@ -1915,9 +1924,15 @@ def c05_exact(inp):
         try:
             # orders up to the data's own order: a model of higher order fitted to exact order-n data is rank deficient
             # (its leading coefficient block may be singular) - outside "well-conditioned"
+            Ad0, Bn0 = [np.array(x, copy=True) for x in Ad[:n]], [np.array(x, copy=True) for x in Bn[:n]]
             Fn, Xi, Phi, Lam = plscf.pLSCF_poles(Ad[:n], Bn[:n], dt, "per", 2 * (nf - 1))
         except Exception as e:      # noqa: BLE001
             return {"reproduced": True, "detail": f"pLSCF_poles raised {type(e).__name__}: {e} ({ctx})"}
+        # the model the caller holds (pLSCF.run stores it in the result after computing the poles) is still the fitted model
+        for o, (a0, a1, b0, b1) in enumerate(zip(Ad0, Ad[:n], Bn0, Bn[:n])):
+            if not (np.array_equal(a0, np.asarray(a1)) and np.array_equal(b0, np.asarray(b1))):
+                return {"reproduced": True, "detail": f"pLSCF_poles changed the order-{o + 1} model it was given (max |dA| = {np.abs(a0 - np.asarray(a1)).max():.2e}, "
+                                                      f"max |dB| = {np.abs(b0 - np.asarray(b1)).max():.2e}): the returned model no longer reproduces the coefficients ({ctx})"}
         col = n - 1
         got = Lam[:, col]
         fin = ~np.isnan(got)
@@ -2164,7 +2179,10 @@ def c08_meta(inp):
         return {"FDD": lambda: FDD(name="a", nxseg=256, method_SD="per"), "FDDcor": lambda: FDD(name="a", nxseg=256, method_SD="cor"),
                 "EFDD": lambda: EFDD(name="a", nxseg=256, method_SD="per"), "FSDD": lambda: FSDD(name="a", nxseg=256, method_SD="per"),
                 "SSIcov": lambda: SSIcov(name="a", br=8, ordmax=8, hc=hc), "SSIcov_R": lambda: SSIcov(name="a", br=8, ordmax=8, method="cov_R", hc=hc),
-                "SSIdat": lambda: SSIdat(name="a", br=8, ordmax=8, hc=hc), "pLSCF": lambda: pLSCF(name="a", ordmax=5, nxseg=256, hc=hc)}
+                "SSIdat": lambda: SSIdat(name="a", br=8, ordmax=8, hc=hc), "pLSCF": lambda: pLSCF(name="a", ordmax=5, nxseg=256, hc=hc),
+                # every spectral estimation method, not just the default one
+                "EFDDcor": lambda: EFDD(name="a", nxseg=256, method_SD="cor"), "FSDDcor": lambda: FSDD(name="a", nxseg=256, method_SD="cor"),
+                "pLSCFcor": lambda: pLSCF(name="a", ordmax=5, nxseg=256, method_SD="cor", hc=hc)}
 
     def run(kind, y, fs, sel, perm=None):
         st = SingleSetup(y.copy(), fs)
@@ -2173,9 +2191,10 @@ def c08_meta(inp):
         st.run_by_name("a")
         if kind.startswith("FDD"):
             st.mpe("a", sel_freq=sel, DF=0.08 * fs / 20.0)
-        elif kind in ("EFDD", "FSDD"):
-            st.mpe("a", sel_freq=sel, DF1=0.08 * fs / 20.0, DF2=1.0 * fs / 20.0)
+        elif kind[:4] in ("EFDD", "FSDD"):
+            st.mpe("a", sel_freq=sel, DF1=0.08 * fs / 20.0, DF2=1.0 * fs / 20.0, sppk=1, npmax=6)
         return _c08_tables(a)
+    ran, skipped = set(), {}
     for trial in range(ntr):
         nch = int(rng.randint(3, 6))
         fs = 20.0
@@ -2194,8 +2213,10 @@ def c08_meta(inp):
         for kind in algs():
             try:
                 base = run(kind, y, fs, sel)
-            except Exception:      # noqa: BLE001
+            except Exception as ex:      # noqa: BLE001
+                skipped.setdefault(kind, f"{type(ex).__name__}: {ex}")
                 continue        # the untransformed run itself fails on this data set (not a covariance statement): guarded case
+            ran.add(kind)
             # (a) gain: a power of two scales every floating-point operation exactly
             # (the property ranges over every data set and gains in [1e-6, 1e6]: a record of r.m.s. 1e-4 at gain 1e-6 is 2^-34 here)
             for gain in (2.0 ** -20, 2.0 ** 20, 2.0 ** -34, 2.0 ** 30, 3.7e-6, 4.2e5):
@@ -2215,7 +2236,10 @@ def c08_meta(inp):
                 except Exception as ex:      # noqa: BLE001
                     return {"reproduced": True, "detail": f"{kind}: sampling frequency x {kappa:g} raises {type(ex).__name__}: {ex} (the original run succeeds)"}
                 want = {k_: (v * kappa if k_ in ("Fn_poles", "freq", "Fn") else v) for k_, v in base.items()}
-                err = _c08_same_tables(want, got, 1e-9, f"{kind}: sampling frequency declared {kappa:g} times higher")
+                # EFDD / FSDD fit a line through the extrema of the free decay (np.polyfit on a time axis): the fit is not exactly
+                # scale-free in floating point, its rounding noise is ~1e-9 relative; the frequency grid k * fs / nxseg times dt is not
+                # exactly the same product either, and an ill-conditioned (spurious) pLSCF root amplifies that ulp to ~1e-9 (seed 23)
+                err = _c08_same_tables(want, got, 1e-6 if kind[:4] in ("EFDD", "FSDD") else 1e-7, f"{kind}: sampling frequency declared {kappa:g} times higher")
                 if err:
                     return {"reproduced": True, "detail": err}
             # (b) channel permutation: frequencies and damping unchanged, shape rows permuted
@@ -2234,7 +2258,11 @@ def c08_meta(inp):
             err = _c08_same_tables(want, got, 1e-5, f"{kind}: channels permuted {perm.tolist()}")
             if err:
                 return {"reproduced": True, "detail": err}
-    return {"reproduced": False, "detail": f"{ntr} data sets x 8 algorithm variants: pole tables and extracted modes covariant under gain (2^-34 .. 2^30 exact, 3.7e-6, 4.2e5), time unit (2^-5, 2^6) and a channel permutation; shapes unit-normalised"}
+    never = sorted(set(algs()) - ran)
+    if never:
+        # a variant whose untransformed run never succeeds was not examined at all: the driver says so instead of passing silently
+        raise RuntimeError(f"c08_meta explored nothing for {never}: {[skipped.get(k_) for k_ in never]}")
+    return {"reproduced": False, "detail": f"{ntr} data sets x 11 algorithm variants (periodogram and correlogram spectra; cov_mm / cov_R / data-driven Hankel matrices): pole tables and extracted modes covariant under gain (2^-34 .. 2^30 exact, 3.7e-6, 4.2e5), time unit (2^-5, 2^6) and a channel permutation; shapes unit-normalised"}
 
 
 
